@@ -256,7 +256,12 @@ class CharsetTokenizer(Tokenizer):
             pos = start_pos
             startchar = currentchar = start_char
             for char in value:
-                tchar = charmap[ord(char)]
+                try:
+                    tchar = charmap[ord(char)]
+                except LookupError:
+                    # A character the map does not know is not a word character
+                    # (charset_table_to_dict() returns a plain dict)
+                    tchar = None
                 if tchar:
                     text += tchar
                 else:
